@@ -13,6 +13,8 @@ Decided:
          set True after the import and False in `except ImportError`
   R13.5  build agreement: setup.py extensions <-> .pyx files <-> import paths; compiler directives in
          setup.py equal the `# cython:` headers
+  R13.6  every global name used in a module with a fast/fallback switch is bound there (symtable): a fallback branch cannot
+         die with NameError when the extension is missing
   L1/L2  the lemmas used by the comparison are checked on the helper bodies
 End-to-end equality of whole schedules follows from pairwise equivalence of the only functions that differ.
 """
@@ -100,6 +102,56 @@ def arg_range(e) -> tuple:
     if isinstance(e, ast.Constant) and isinstance(e.value, (int, float)) and not isinstance(e.value, bool):
         return (e.value, e.value)
     return (None, None)
+
+
+def unbound_name_rule(ctx: Ctx, rid: str):
+    """Every global name a function of a module with a fast/fallback switch uses is bound in that module (import, def, class,
+    assignment) or is a builtin.  The fallback bodies are the code no test run with the extensions built ever executes: a name
+    that is bound nowhere raises NameError exactly when the extension is missing (symtable scoping, nothing is run)."""
+    import builtins
+    import symtable
+    nmod = nfun = 0
+    for rel in sorted(MODULES):
+        m = ctx.repo.by_rel.get(rel)
+        if m is None:
+            raise AnchorMissing(f"{rel} not in the model")
+        src = open(os.path.join(ctx.repo.root, rel)).read()
+        top = symtable.symtable(src, rel, "exec")
+        bound = {s_.get_name() for s_ in top.get_symbols() if s_.is_assigned() or s_.is_imported() or s_.is_namespace()}
+        # names bound by `global x` + assignment inside functions
+        def walk(t):
+            for c in t.get_children():
+                for s_ in c.get_symbols():
+                    if s_.is_global() and s_.is_assigned():
+                        bound.add(s_.get_name())
+                walk(c)
+        walk(top)
+        bound |= set(dir(builtins)) | {"__name__", "__file__", "__doc__", "__class__"}
+        nmod += 1
+        lines = {}
+        for x in ast.walk(m.tree):
+            if isinstance(x, ast.Name) and isinstance(x.ctx, ast.Load):
+                lines.setdefault(x.id, x.lineno)
+        missing = []
+
+        def scan(t):
+            nonlocal nfun
+            for c in t.get_children():
+                if c.get_type() == "function":
+                    nfun += 1
+                for s_ in c.get_symbols():
+                    if s_.is_referenced() and s_.is_global() and not s_.is_assigned() and s_.get_name() not in bound:
+                        missing.append((c.get_name(), s_.get_name(), c.get_lineno()))
+                scan(c)
+        scan(top)
+        for fname, name, ln in sorted(set(missing)):
+            ctx.ob(rid, f"{rel}: {fname} uses {name}", f"{rel}:{ln}", False,
+                   f"`{name}` is bound nowhere in {rel} (no import, definition or assignment) and is not a builtin: the function raises "
+                   "NameError when this line runs -- in a fallback branch that is exactly when the compiled extension is unavailable",
+                   key=f"{rid}|{rel}|{fname}|{name}")
+        if not missing:
+            ctx.ob(rid, f"{rel}: every global name used is bound in the module", f"{rel}:1", True, "symtable: no unbound global", nontrivial=False)
+    ctx.stats["unbound_name_scopes"] = nfun
 
 
 def run(ctx: Ctx):
@@ -244,6 +296,8 @@ def run(ctx: Ctx):
                key=f"R13.3|{fn.qual}|{pf.name}")
         for l in sorted(lem.used):
             _lemma(ctx, l, pyx_mods, repo)
+    unbound_name_rule(ctx, "R13.6")
+    ctx.floor("R13.6", 3)
     ctx.floor("R13.3", 7)
     ctx.floor("R13.4", 10)
     ctx.floor("R13.5", 9)
